@@ -91,7 +91,7 @@ def static_checks(ctx):
 
 def obligations(ctx):
     H = "harness/C06/ring.c"
-    common = dict(mode="proof", timeout=1500, mem_gb=12)
+    common = dict(mode="proof", timeout=1200, mem_gb=12)
     obls = []
     def ob(name, entry, enforce, replace=(), defs=None, cb=(), **kw):
         d = dict(common); d.update(kw)
@@ -111,6 +111,13 @@ def obligations(ctx):
     bnd = "ring size <= %s (content clauses use CBMC's built-in memcpy)" % smax
     ob("ring_write.content", "h_ring_write", "ring_write", defs=small, mode="bounded", bound=bnd)
     ob("ring_read.content", "h_ring_read", "ring_read", defs=small, mode="bounded", bound=bnd)
+    # the same contracts + order assertions on small rings with an unwinding bound: decides variants of the code that
+    # contain loops (a chunked copy loop has no loop contract, so the unbounded obligations above cannot finish on it)
+    tiny = {"RING_SMAX": "8", "CONTENT": None, "ORDER_GHOSTS": None}
+    ob("ring_write.order_small", "h_ring_write", "ring_write", defs=tiny, mode="bounded", bound="ring size <= 8, loops unwound 10 times",
+       cb=["--unwind", "10", "--unwinding-assertions"], timeout=900)
+    ob("ring_read.order_small", "h_ring_read", "ring_read", defs=tiny, mode="bounded", bound="ring size <= 8, loops unwound 10 times",
+       cb=["--unwind", "10", "--unwinding-assertions"], timeout=900)
     tl = {"RING_SMAX": "(1UL<<30)", "THREADLINK": None}
     ob("ThreadLink_hasNext.contract", "h_tl_hasNext", "ThreadLink_hasNext", replace=["ring_read_size"], defs=tl)
     ob("ThreadLink_raw_write.contract", "h_tl_raw_write", "ThreadLink_raw_write",
